@@ -56,14 +56,17 @@ func init() {
 			return fromTermB(strEq(s.slice(s.Len()-p.Len(), s.Len()), p))
 		},
 		"strings.TrimSpace": func(e *Engine, a []Value) Value { return mTrim(e, a[0].(Str), " \t\n\v\f\r", true, true) },
-		"strings.TrimLeft":  func(e *Engine, a []Value) Value { return mTrim(e, a[0].(Str), a[1].(Str).S, true, false) },
-		"strings.TrimRight": func(e *Engine, a []Value) Value { return mTrim(e, a[0].(Str), a[1].(Str).S, false, true) },
-		"strings.Trim":      func(e *Engine, a []Value) Value { return mTrim(e, a[0].(Str), a[1].(Str).S, true, true) },
+		"strings.TrimLeft":  func(e *Engine, a []Value) Value { return mTrim(e, a[0].(Str), cutsetOf(e, a[1]), true, false) },
+		"strings.TrimRight": func(e *Engine, a []Value) Value { return mTrim(e, a[0].(Str), cutsetOf(e, a[1]), false, true) },
+		"strings.Trim":      func(e *Engine, a []Value) Value { return mTrim(e, a[0].(Str), cutsetOf(e, a[1]), true, true) },
 		"strings.ToLower":   mToLower,
 		"strings.ReplaceAll": func(e *Engine, a []Value) Value {
 			s, old, nw := a[0].(Str), a[1].(Str), a[2].(Str)
 			if old.Len() == 0 {
-				panic(unsupported("ReplaceAll empty old"))
+				// the new string goes before every character and at the end: operands made concrete
+				cs, _ := e.concStrFork(s, "")
+				cn, _ := e.concStrFork(nw, "")
+				return Str{S: strings.ReplaceAll(cs, "", cn)}
 			}
 			out := Str{}
 			rest := s
@@ -464,6 +467,12 @@ func strSliceVal(parts []Str) Value {
 	return Slice{A: &arr, Len: len(arr), Cap: len(arr)}
 }
 
+// cutsetOf: the cutset argument of the Trim family; a symbolic cutset is made concrete (forks)
+func cutsetOf(e *Engine, v Value) string {
+	c, _ := e.concStrFork(v, "")
+	return c
+}
+
 func mSplitN(e *Engine, a []Value) Value {
 	s, sep := a[0].(Str), a[1].(Str)
 	n := int(int64(a[2].(Int).V))
@@ -471,7 +480,13 @@ func mSplitN(e *Engine, a []Value) Value {
 		return Slice{Nil: true}
 	}
 	if sep.Len() == 0 {
-		panic(unsupported("split empty sep"))
+		// explodes s into its characters: operand made concrete
+		cs, _ := e.concStrFork(s, "")
+		var ps []Str
+		for _, p := range strings.SplitN(cs, "", n) {
+			ps = append(ps, Str{S: p})
+		}
+		return strSliceVal(ps)
 	}
 	var parts []Str
 	rest := s
